@@ -163,8 +163,35 @@ def payloads(ctx):
             for (c, ov) in jobs(ctx) for s in seeds]
 
 
+TIE_JOB = ("config_files/2018_JCP_149_064113/coulomb_atoms/cell_bounded.ini",
+           {"CuboidPeriodicCells": {"cells_per_side": "4"},
+            "SingleIndependentActivePeriodicDirectionEndOfChainEventHandler": {"chain_time": "0.11563575588759878"}})
+
+
+def tie_probe(ctx):
+    """Finding F12: an end-of-chain event whose time equals the time of the active unit's cell-boundary event bit for
+    bit (chain time = 0.25 - x of the initially active atom for random.seed(1)) is committed first and leaves the old
+    active unit recorded in the cell it has just left.  Only this input is excused; the probe prints nothing if the run
+    is clean."""
+    tr = hist.run_traces(ctx, [TIE_JOB], 400, seeds=(1,))[0]
+    err = tr.get("error")
+    fails = [] if err else TC.check_all(tr, ("C11",))[0]["C11"]
+    if err or fails:
+        what = ("run raised %s in SingleActiveCellOccupancy.update" % err["exc"]) if err else fails[0]["msg"]
+        if err and "single_active_cell_occupancy" not in (err.get("tb") or ""):
+            C.violation(ctx, "tie-probe", {"kind": "trace", "payload": hist.payload_of(tr, 400), "message": what},
+                        "C11 exact-tie job fails outside the occupancy update: " + what)
+            return
+        C.known(ctx, "F12", "exact tie of the end-of-chain event with the cell-boundary event of the active unit "
+                "(cell_bounded.ini, 4 cells per side, seed 1, chain_time 0.11563575588759878): %s after %d legs"
+                % (what[:160], len(tr["legs"])))
+    ctx.notes.append("exact-tie probe (F12): %s" % ("reproduced" if (err or fails) else "clean"))
+
+
 def run(ctx, replay_jobs=None):
     C.build_scratch(ctx, exts=("heap", "mic", "ipc"))
+    if replay_jobs is None:
+        tie_probe(ctx)
     nlegs = ctx.n(150, 400)
     hist.run_history_check(
         ctx, "C11", ("C11",), encoders(), TRUSTED, [a % nlegs if "%d" in a else a for a in ASSUME],
